@@ -35,11 +35,11 @@ FORB = {
 }
 
 
-def gen():
+def gen(module="MC_Evaluator"):
     d = tlc.scratch_dir("c01gen")
     o1, o2 = os.path.join(d, "forb.ndjson"), os.path.join(d, "bomb.ndjson")
     cfg = tlc.cfg_text(init="Init", next_="Next")
-    r = tlc.run_tlc("MC_Evaluator", cfg, workers=1, timeout=1200, env={"OUT": o1, "OUT2": o2}, cwd=d)
+    r = tlc.run_tlc(module, cfg, workers=1, timeout=1200, env={"OUT": o1, "OUT2": o2}, cwd=d)
     if not (os.path.exists(o1) and os.path.exists(o2)):
         raise base.MachineryError("C01 case generation failed:\n%s" % r["out"][-2000:])
     forb = [json.loads(l) for l in open(o1)]
@@ -300,6 +300,13 @@ def run(tier):
     rng = base.rng("c01")
     forb, bomb, g = gen()
     R.cov["tlc_runs"].append({"name": "MC_Evaluator (constructs outside the subset x positions; resource family with size bounds)", "wall_s": round(g.get("wall_s", 0), 1)})
+    if not quick:          # two positions deep / one more level of the resource family
+        f2, b2, g2 = gen("MC_EvaluatorDeep")
+        R.cov["tlc_runs"].append({"name": "MC_EvaluatorDeep (construct two positions deep: %d programs; resource family depth 2: %d members)" % (len(f2), len(b2)),
+                                  "wall_s": round(g2.get("wall_s", 0), 1)})
+        seen = {json.dumps(c["ast"], sort_keys=True) for c in forb}
+        forb += [c for c in f2 if json.dumps(c["ast"], sort_keys=True) not in seen]
+        bomb += b2
     cases, meta = [], {}
 
     def add(src, kind, pathway=None, **extra):
@@ -326,7 +333,7 @@ def run(tier):
               "10**2200*10**2200", "2 ** 16000", "int('9' * 4000) + 1", "sum([2 ** 10 ** 9])", "max(9 ** 9 ** 9, 1)", "1 if 9 ** 9 ** 9 else 0", "not 10 ** 10 ** 10", "10 ** 10 ** 10 > 1", "len('a' * 10 ** 12)", "'a' * 10 ** 6 * 10 ** 6", "int('9' * 9000) ** 9000"]:
         add(s, "bomb", None, bomb=False, safe=False, alo=0, ahi=0, hi=10 ** 9)
         add(s, "bomb", "legacy", bomb=False, safe=False, alo=0, ahi=0, hi=10 ** 9)
-    for s in fuzz_strings(rng, 600 if quick else 20000):
+    for s in fuzz_strings(rng, 600 if quick else 60000):
         add(s, "fuzz", rng.choice([None, None, "math", "logic", "tool", "data"]))
     # spec self-check of the size model on the computable part of the family (a wrong bound would be a false alarm of the specification)
     for c in bomb:
